@@ -199,8 +199,9 @@ inductive STree where
   | guard (d : RExp) (children : List STree)
   /-- everything below mapped call `call` whose size is only known at run time (`isMap`: typed-map
   mode); `path`, `cins`: the call's fully qualified path and resolved inputs (`CallGraphStage.Inputs`,
-  which `findMergeForkNode` searches) -/
-  | subR (call : String) (isMap : Bool) (path : List String) (cins : RBMap) (children : List STree)
+  which `findMergeForkNode` searches); `ok`: the callee's outputs contain neither the call's own split
+  (the cancelling shape of `mkMerge`) nor a merge over the call -/
+  | subR (call : String) (isMap : Bool) (path : List String) (cins : RBMap) (ok : Bool) (children : List STree)
 deriving Inhabited
 
 def splitsStaticT (st : StructTable) (self sib : RBMap) (ins : List Param) (c : Call)
@@ -228,13 +229,13 @@ def staticCallsT (st : StructTable) (insOf : String → List Param)
       let ixs := ci.getD (false, [])
       -- a `disabled` modifier on a map call is not covered
       let ok := ci.isSome && !ixs.2.isEmpty && splitsStaticT st self sib (insOf c.callee) c ixs &&
-        c.disabled.isNone
+        c.disabled.isNone && noMergeOf c.id r.1.exp
       if ci.isNone && (runtimeMode st self sib (insOf c.callee) c).isSome then
         -- run-time size: the outputs are a `merge` over the call (resolve_pipeline.go / resolve_stage.go)
         let m := (runtimeMode st self sib (insOf c.callee) c).getD false
         staticCallsT st insOf node path self cs
           (sib ++ [(c.id, ⟨.merge c.id m r.1.exp, if m then ⟨c.callee, 1, 0⟩ else ⟨c.callee, 0, 1⟩⟩)])
-          (acc ++ [.subR c.id m (path ++ [c.id]) cins r.2])
+          (acc ++ [.subR c.id m (path ++ [c.id]) cins (noSplitOf c.id r.1.exp && noMergeOf c.id r.1.exp) r.2])
       else
       staticCallsT st insOf node path self cs (sib ++ [(c.id, unrolledOutputsT c ixs r.1.exp)])
         (acc ++ [.sub c.id ixs.1 ixs.2 ok r.2])
@@ -280,7 +281,7 @@ def flattenD (dims : List (String × List Idx)) (dis : List RExp) : STree → Li
   | .node n => [{ n with forks := dims, disable := dis }]
   | .sub c _ ixs _ ch => flattenDList (dims ++ [(c, ixs)]) dis ch
   | .guard d ch => flattenDList dims (dis ++ [d]) ch
-  | .subR c _ _ _ ch => flattenDList (dims ++ [(c, [])]) dis ch
+  | .subR c _ _ _ _ ch => flattenDList (dims ++ [(c, [])]) dis ch
 def flattenDList (dims : List (String × List Idx)) (dis : List RExp) : List STree → List SNode
   | [] => []
   | t :: ts => flattenD dims dis t ++ flattenDList dims dis ts
@@ -292,7 +293,7 @@ def flattenT (dims : List (String × List Idx)) : STree → List SNode
   | .node n => [{ n with forks := dims }]
   | .sub c _ ixs _ ch => flattenTList (dims ++ [(c, ixs)]) ch
   | .guard _ ch => flattenTList dims ch
-  | .subR c _ _ _ ch => flattenTList (dims ++ [(c, [])]) ch
+  | .subR c _ _ _ _ ch => flattenTList (dims ++ [(c, [])]) ch
 def flattenTList (dims : List (String × List Idx)) : List STree → List SNode
   | [] => []
   | t :: ts => flattenT dims t ++ flattenTList dims ts
@@ -305,7 +306,7 @@ def treeOk (above : List String) : STree → Bool
   | .node _ => true
   | .sub c _ _ ok ch => ok && !above.contains c && treeOkList (above ++ [c]) ch
   | .guard _ ch => treeOkList above ch
-  | .subR _ _ _ _ _ => false
+  | .subR _ _ _ _ _ _ => false
 def treeOkList (above : List String) : List STree → Bool
   | [] => true
   | t :: ts => treeOk above t && treeOkList above ts
@@ -319,7 +320,7 @@ def instsT (st : StructTable) (nf : Nat) (ρ : Store) : List (String × Idx) →
     ixs.flatMap fun ix => instsTList st nf ρ (forks ++ [(c, ix)]) (fset f c ix) ch
   | forks, f, .guard d ch =>
     if isTrue (evalRT st nf ρ f ⟨"bool", 0, 0⟩ d) then [] else instsTList st nf ρ forks f ch
-  | forks, f, .subR c _ _ _ ch =>
+  | forks, f, .subR c _ _ _ _ ch =>
     -- one fork per recorded index / key of the call in this fork of the enclosing calls
     (ρ.idx c f).flatMap fun ix => instsTList st nf ρ (forks ++ [(c, ix)]) (fset f c ix) ch
 def instsTList (st : StructTable) (nf : Nat) (ρ : Store) : List (String × Idx) → ForkAssign → List STree → List Inst
@@ -333,7 +334,7 @@ def noGuard : STree → Bool
   | .node _ => true
   | .sub _ _ _ _ ch => noGuardList ch
   | .guard _ _ => false
-  | .subR _ _ _ _ ch => noGuardList ch
+  | .subR _ _ _ _ _ ch => noGuardList ch
 def noGuardList : List STree → Bool
   | [] => true
   | t :: ts => noGuard t && noGuardList ts
@@ -353,7 +354,7 @@ def treeOkR (above aboveStatic : List String) : STree → Bool
   | .node _ => true
   | .sub c _ _ ok ch => ok && !above.contains c && treeOkRList (above ++ [c]) (aboveStatic ++ [c]) ch
   | .guard _ ch => treeOkRList above aboveStatic ch
-  | .subR c _ _ cins ch =>
+  | .subR c _ _ cins _ ch =>
     !above.contains c && (cins.all fun kv => aboveStatic.all fun s => noSplitOf s kv.2.exp) &&
       treeOkRList (above ++ [c]) aboveStatic ch
 def treeOkRList (above aboveStatic : List String) : List STree → Bool
@@ -367,7 +368,7 @@ def subRInfo (dis : List RExp) : STree → List (String × List String × RBMap 
   | .node _ => []
   | .sub _ _ _ _ ch => subRInfoList dis ch
   | .guard d ch => subRInfoList (dis ++ [d]) ch
-  | .subR c _ path cins ch => (c, path, cins, dis) :: subRInfoList dis ch
+  | .subR c _ path cins _ ch => (c, path, cins, dis) :: subRInfoList dis ch
 def subRInfoList (dis : List RExp) : List STree → List (String × List String × RBMap × List RExp)
   | [] => []
   | t :: ts => subRInfo dis t ++ subRInfoList dis ts
